@@ -14,7 +14,11 @@ IMMUTABLE_FIELDS = {'p', 'c', 'r', 'N', 'n', 'qubits', 'L', 'device', 'result', 
 def check_pure(run, eff, f, roots=None, allow=(), rule='R4a', what='query'):
     """No denotation storage reachable from the given parameters (default: all) is written."""
     roots = list(f.params) if roots is None else roots
-    ms = E.mods(eff, f, roots)
+    glob = [(p, k) for p, k, via in sorted(eff.summary(f).mod) if p.startswith('@') and not via]
+    for p, k in glob:
+        run.violation(rule + '.global', f, '%s %s' % (p[1:], k), '%s %s writes the module-level variable `%s`: results of different calls share hidden state '
+                      '(a cached object handed out twice is the same mutable object)' % (what, f.qual, p[1:]))
+    ms = E.mods(eff, f, roots, all_attrs=(what == 'query'))
     bad = [(p, k) for p, k, via in ms if not via and k not in allow]
     soft = [(p, k) for p, k, via in ms if via and k not in allow]
     if bad:
@@ -85,7 +89,11 @@ def check_fresh_result(run, eff, f, rule='R4a.fresh'):
     s = eff.summary(f)
     ret = s.ret if not isinstance(s.ret, tuple) else frozenset().union(*s.ret[1])
     atoms = E.reachable_atoms(ret, s.heap)
-    direct = [a for a in ret if a[0] == 'loc']
+    direct = [a for a in ret if a[0] == 'loc' and not a[1].startswith('@')]
+    shared_global = [a for a in ret if a[0] == 'loc' and a[1].startswith('@')]
+    for a in shared_global:
+        run.violation(rule, f, 'return', '%s may return an object stored in the module-level variable `%s`: every caller gets the same mutable object'
+                      % (f.qual, a[1][1:]))
     shared = sorted({(path, a[1]) for path, a in atoms if a[0] == 'loc' and path.split('.')[-1] not in IMMUTABLE_FIELDS})
     if direct:
         run.violation(rule, f, 'return', '%s returns one of its operands (%s) instead of a new object' % (f.qual, direct[0][1]))
